@@ -8,6 +8,9 @@ package messages
 // key usage of the authenticator: 7 in a TGS-REQ (service krbtgt), 11 otherwise (RFC 4120 7.5.1)
 //@ define auth_usage(sn) := ite(len(sn.NameString) > 0 && sn.NameString[0] == "krbtgt", uint32(7), uint32(11))
 
+// e is a KRB-ERROR value with error code c (iana/errorcode)
+//@ define krberr(e, c) := tagof(e) == typeid("messages.KRBError") && unbox(e, "messages.KRBError").ErrorCode == c
+
 //@ func messages.authenticatorKeyUsage(pn) (r)
 //@   pure
 //@   ensures uint32(r) == auth_usage(pn) && r >= 0 && r < 4294967296
@@ -16,6 +19,9 @@ package messages
 //@   pure
 //@   ensures ok ==> err == nil
 //@   ensures ok <==> !(t.DecryptedEncPart.StartTime.Sub(now#1) > d) && !flagset(t.DecryptedEncPart.Flags, 7) && !((now#1).Sub(t.DecryptedEncPart.EndTime) > d)
+//@   ensures !ok ==> krberr(err, 33) || krberr(err, 32)
+//@   ensures krberr(err, 33) ==> t.DecryptedEncPart.StartTime.Sub(now#1) > d || flagset(t.DecryptedEncPart.Flags, 7)
+//@   ensures krberr(err, 32) ==> (now#1).Sub(t.DecryptedEncPart.EndTime) > d
 
 //@ func (*messages.Ticket).Decrypt(t, key) (err)
 //@   modifies t.DecryptedEncPart
@@ -53,6 +59,14 @@ package messages
 //@   ensures ok ==> a.Authenticator.CRealm == a.Ticket.DecryptedEncPart.CRealm
 //@   ensures ok ==> !((now#2).Sub(a.Authenticator.CTime.Add(int64(a.Authenticator.Cusec) * 1000)) > d)
 //@        && !(a.Authenticator.CTime.Add(int64(a.Authenticator.Cusec) * 1000).Sub(now#2) > d)
+// Completeness direction: a request is refused only with an error, and each RFC 4120 error code only when its condition holds.
+//@   ensures !ok ==> err != nil
+//@   ensures krberr(err, 33) ==> a.Ticket.DecryptedEncPart.StartTime.Sub(now#1) > d || flagset(a.Ticket.DecryptedEncPart.Flags, 7)
+//@   ensures krberr(err, 32) ==> (now#1).Sub(a.Ticket.DecryptedEncPart.EndTime) > d
+//@   ensures krberr(err, 38) ==> len(a.Ticket.DecryptedEncPart.CAddr) > 0 && !addr_in(a.Ticket.DecryptedEncPart.CAddr, cAddr)
+//@   ensures krberr(err, 36) ==> !names_equal(a.Authenticator.CName, a.Ticket.DecryptedEncPart.CName) || a.Authenticator.CRealm != a.Ticket.DecryptedEncPart.CRealm
+//@   ensures krberr(err, 37) ==> (now#2).Sub(a.Authenticator.CTime.Add(int64(a.Authenticator.Cusec) * 1000)) > d
+//@        || a.Authenticator.CTime.Add(int64(a.Authenticator.Cusec) * 1000).Sub(now#2) > d
 
 //@ func messages.NewKRBError(sname, realm, code, etext) (r)
 //@   pure
